@@ -15,7 +15,7 @@ func init() {
 	mc.Register(&mc.Property{
 		ID:    "C17",
 		Level: "exploration",
-		Rule: "E1 bounded-exhaustive enumeration: the C16 key sets (every non-empty sorted subset of the suffix-key universes behind each stem) × every maxSize in [1, len+1]; plus two key sets of 1111 and 4161 keys with 25 maxSize values around powers of two. Oracle, clause by clause from the statement: boundaries start at 0, strictly increase and end at len; every shard holds ≤ maxSize keys; L[j] is the byte length of the longest common prefix of the shard computed by direct comparison (the key's own length for a single key); shard prefixes strictly ascending. " +
+		Rule: "E1 bounded-exhaustive enumeration: the C16 key sets (every non-empty sorted subset of the suffix-key universes behind each stem) × every maxSize in [1, len+1]; plus two key sets of 1111 and 4161 keys with 25 maxSize values around powers of two; plus generated key lists of EVERY threshold size n = b-1, b, b+1 (b in 2^k, 3·2^k, 10^k, 2·10^k, 5·10^k) from 1000 up to 400001 keys (thorough: 2^20+1) in two styles × maxSize in {1,2,3,255,256,257,4096,n/2,n-1,n,n+1}. Oracle, clause by clause from the statement: boundaries start at 0, strictly increase and end at len; every shard holds ≤ maxSize keys; L[j] is the byte length of the longest common prefix of the shard computed by direct comparison (the key's own length for a single key); shard prefixes strictly ascending. " +
 			"A case is one call; non-trivial when the set has ≥3 keys and maxSize < len; key sets that re-occur in a later family are executed again but counted once.",
 		Assumptions: []string{"key sets are drawn from small byte alphabets behind fixed stems"},
 		Run:         c17Run,
@@ -139,7 +139,7 @@ func c17Run(c *mc.Ctx) {
 					v = c17Verdict(keys, max, L, B)
 				}
 				if v != "" {
-					c.Fail(int64(si)<<36|sets<<8|int64(max), "ShardByPrefix", "ShardByPrefix", c16Case{Keys: gen.BytesList(append([]string(nil), keys...)), Max: max}, fmt.Sprintf("L=%v B=%v: %s", L, B, v), "all clauses of the statement hold")
+					c.Fail(int64(si)<<36|sets<<8|int64(max), "ShardByPrefix", "ShardByPrefix", c16Case{Keys: gen.BytesList(append([]string(nil), keys...)), Max: max}, c17Clip(L, B)+v, "all clauses of the statement hold")
 				}
 				evals++
 				if !dup && n >= 3 && max < n {
@@ -154,16 +154,65 @@ func c17Run(c *mc.Ctx) {
 		c.Count(evals, nontriv)
 		c.Add("key_sets", sets)
 	})
+	c17Big(c)
+}
+
+// c17Big: ShardByPrefix on generated key lists of every threshold size.
+func c17Big(c *mc.Ctx) {
+	sizes := gen.ThresholdSizes(1000, c16BigHi(c))
+	type job struct {
+		n, style int
+		max      int32
+	}
+	var jobs []job
+	for i := len(sizes) - 1; i >= 0; i-- {
+		n := sizes[i]
+		for style := 0; style < 2; style++ {
+			seen := map[int]bool{}
+			for _, m := range []int{1, 2, 3, 255, 256, 257, 4096, n / 2, n - 1, n, n + 1} {
+				if !seen[m] {
+					seen[m] = true
+					jobs = append(jobs, job{n, style, int32(m)})
+				}
+			}
+		}
+	}
+	c.Expect(int64(len(jobs)))
+	c.Par(len(jobs), func(ji int) {
+		if c.TooMany() {
+			return
+		}
+		j := jobs[ji]
+		keys := c16GenKeys(j.n, j.style)
+		L, B, p := shardByPrefix(keys, j.max)
+		v := p
+		if p == "" {
+			v = c17Verdict(keys, j.max, L, B)
+		}
+		if v != "" {
+			c.Fail(int64(5)<<56|int64(j.n)<<24|int64(j.style)<<20|int64(ji), "ShardByPrefix", "ShardByPrefix", c16Case{GenN: j.n, GenStyle: j.style, Max: j.max}, c17Clip(L, B)+v, "all clauses of the statement hold")
+		}
+		c.Count(1, 1)
+		c.Add("generated_key_list_calls", 1)
+		c.Max("largest_key_list", int64(j.n))
+	})
+}
+
+func c17Clip(L, B []int32) string {
+	if len(B) > 40 {
+		return fmt.Sprintf("(%d shards) ", len(L))
+	}
+	return fmt.Sprintf("L=%v B=%v: ", L, B)
 }
 
 func c17Judge(kind string, cs c16Case) (got, want string) {
-	keys := gen.StringsOf(cs.Keys)
+	keys := cs.keys()
 	L, B, p := shardByPrefix(keys, cs.Max)
 	if p != "" {
 		return p, "all clauses of the statement hold"
 	}
 	if v := c17Verdict(keys, cs.Max, L, B); v != "" {
-		return fmt.Sprintf("L=%v B=%v: %s", L, B, v), "all clauses of the statement hold"
+		return c17Clip(L, B) + v, "all clauses of the statement hold"
 	}
 	return "all clauses of the statement hold", "all clauses of the statement hold"
 }
